@@ -99,4 +99,27 @@ def serialize (f : Fog) : List Bytes := f.map (fun p => hp p false)
 def deserialize (l : List Bytes) : Option Fog :=
   (l.mapM fun b => (HexD.hpDecode b).map (·.1)).map fun ps => ps.foldl insert []
 
+/-! ### `TrieFrontierCache`: prefix ↦ (parent node, segment from the parent); the node type is a parameter -/
+abbrev Frontier (α : Type) := List (Path × (α × Path))
+
+namespace Frontier
+variable {α : Type}
+
+/-- `get(prefix)`; `none` = `KeyError` -/
+def get (c : Frontier α) (p : Path) : Option (α × Path) := (c.find? (fun e => e.1 == p)).map (·.2)
+
+def erase (c : Frontier α) (p : Path) : Frontier α := c.filter (fun e => !(e.1 == p))
+
+def put (c : Frontier α) (p : Path) (v : α × Path) : Frontier α := (p, v) :: erase c p
+
+/-- `add(node_prefix, trie_node, sub_segments)` -/
+def add (c : Frontier α) (pre : Path) (node : α) (subs : List Path) : Frontier α :=
+  let c1 := if pre ≠ [] then erase c pre else c
+  subs.foldl (fun acc seg => put acc (pre ++ seg) (node, seg)) c1
+
+/-- `delete(prefix)` -/
+def delete (c : Frontier α) (p : Path) : Frontier α := erase c p
+
+end Frontier
+
 end PyTrie.Fog
